@@ -431,3 +431,245 @@ Example C08_gradient_example :
   /\ agree_t nonzero_outside = false /\ ok_t nonzero_outside = false
   /\ agree_t wrong_shape = false /\ ok_t wrong_shape = false.
 Proof. vm_compute. repeat split. Qed.
+
+(** ---- non-vacuity of the hypotheses (audit) ---- *)
+(** Every theorem above that has hypotheses, instantiated on concrete non-degenerate data satisfying all of
+    them together (C08_evaluate_is_joint_spec: see C08_compose_example_hypotheses / C08_compose_example). *)
+From Coq Require Import Lia.
+Ltac vac_nodup := vm_compute; repeat (constructor; [simpl; intuition discriminate|]); constructor.
+Ltac vac_cases H := simpl in H; repeat (destruct H as [H|H]; [subst|]); try contradiction.
+
+Example vac_closed_ex_model : Closed ex_model.
+Proof.
+  constructor.
+  - vac_nodup.
+  - intros e H. vac_cases H; vm_compute; intuition.
+  - intros k v H. vac_cases H.
+Qed.
+
+Definition vac_P : list name := ["t2"%string; "t1"%string].
+Definition vac_aug : snet :=
+  match add_distribution_nodes ex_model vac_P false with Ok a => a | Err _ => ex_model end.
+
+Example C08_density_nodes_structure_nonvacuous :
+  Closed ex_model /\ NoDup vac_P /\
+  (forall p, In p vac_P -> NoDup (p :: get_parents ex_model p)) /\
+  NoDup (map (pdf_node false) vac_P) /\
+  (forall p, In p vac_P -> ~ In (pdf_node false p) (names ex_model)) /\
+  (forall p q, In p vac_P -> In q vac_P -> ~ In (pdf_node false p) (q :: get_parents ex_model q)) /\
+  add_distribution_nodes ex_model vac_P false = Ok vac_aug /\
+  names vac_aug = ["_c0"; "_c2"; "t1"; "_c1"; "t2"; "t3"; "_t2_pdf"; "_t1_pdf"]%string /\
+  get_parents vac_aug "_t2_pdf"%string = ["t2"; "t1"; "_c1"]%string.
+Proof.
+  split; [exact vac_closed_ex_model|].
+  split; [vac_nodup|].
+  split; [intros p H; vac_cases H; vac_nodup|].
+  split; [vac_nodup|].
+  split; [intros p H; vac_cases H; vm_compute; intuition discriminate|].
+  split; [intros p q H H'; vac_cases H; vac_cases H'; vm_compute; intuition discriminate|].
+  vm_compute. repeat split.
+Qed.
+
+Example C08_node_parents_in_order_nonvacuous :
+  let ps := ["t2"; "t1"; "_c1"]%string in
+  let m' := match step_model ex_model (EAddNode 0 "_t2_pdf"%string (op_state "pdf:t2"%string) ps None) with Ok a => a | Err _ => ex_model end in
+  Closed ex_model /\ NoDup ps /\ ~ In "_t2_pdf"%string ps /\
+  step_model ex_model (EAddNode 0 "_t2_pdf"%string (op_state "pdf:t2"%string) ps None) = Ok m' /\
+  get_parents m' "_t2_pdf"%string = ps.
+Proof.
+  cbv zeta.
+  split; [exact vac_closed_ex_model|].
+  split; [vac_nodup|].
+  split; [vm_compute; intuition discriminate|].
+  vm_compute. repeat split.
+Qed.
+
+Example C08_joint_positive_nonvacuous :
+  Forall (fun x => 0 < x)%Q [1 # 2; 3; 5 # 7]%Q /\ (0 < prodQ [1 # 2; 3; 5 # 7])%Q.
+Proof.
+  assert (H : Forall (fun x => 0 < x)%Q [1 # 2; 3; 5 # 7]%Q) by (repeat constructor).
+  split; [exact H | exact (C08_joint_positive _ H)].
+Qed.
+
+Example C08_joint_order_independent_nonvacuous :
+  Permutation [1 # 2; 3; 5 # 7]%Q [3; 5 # 7; 1 # 2]%Q /\ (prodQ [1 # 2; 3; 5 # 7] == prodQ [3; 5 # 7; 1 # 2])%Q.
+Proof.
+  assert (H : Permutation [1 # 2; 3; 5 # 7]%Q [3; 5 # 7; 1 # 2]%Q).
+  { change (Permutation ([1 # 2]%Q ++ [3; 5 # 7]%Q) ([3; 5 # 7]%Q ++ [1 # 2]%Q)). apply Permutation_app_comm. }
+  split; [exact H | exact (C08_joint_order_independent _ _ H)].
+Qed.
+
+Example C08_stencil_exact_on_quadratics_nonvacuous :
+  (~ (1 # 4) == 0)%Q /\ (cdiff (fun t => 3 * t * t + 5 * t + 7) (2 # 3) (1 # 4) == 2 * 3 * (2 # 3) + 5)%Q.
+Proof.
+  assert (H : (~ (1 # 4) == 0)%Q) by (intro E; discriminate E).
+  split; [exact H | exact (C08_stencil_exact_on_quadratics 3 5 7 (2 # 3) (1 # 4) H)].
+Qed.
+
+(* array inputs *)
+Definition vac_rows : list (list Z) := [[72; 71]; [82; 81]]%Z.
+Definition vac_call : call := ex_call [2; 2] [72; 71; 82; 81]%Z
+   (Some ([2], [ex_old; ex_term "pdf:t1"%string 82 81 [VConst 0; VConst 2]])).
+
+Example C08_matrix_rows_nonvacuous :
+  vac_P <> [] /\ Forall (fun r : list Z => List.length r = List.length vac_P) vac_rows /\
+  eval_call ex_model vac_P {| c_log := false; c_shape := [List.length vac_rows; List.length vac_P];
+                              c_data := List.concat vac_rows; c_impl := None |}
+  = Some ([2], [ex_old; ex_term "pdf:t1"%string 82 81 [VConst 0; VConst 2]]).
+Proof. split; [discriminate|]. split; [repeat constructor|]. vm_compute. reflexivity. Qed.
+
+Example C08_single_point_forms_nonvacuous :
+  vac_P <> [] /\ List.length [72; 71]%Z = List.length vac_P /\ 1 < List.length vac_P /\
+  eval_point ex_model vac_P false [72; 71]%Z = Some ex_old /\
+  (* one parameter: the clause List.length P = 1 *)
+  ["t1"%string] <> [] /\ List.length [71%Z] = List.length ["t1"%string] /\ List.length ["t1"%string] = 1 /\
+  eval_point ex_model ["t1"%string] false [71%Z] = Some (VApp (OpUser "pdf:t1"%string) [VConst 71; VConst 0; VConst 2] []).
+Proof. vm_compute. repeat split; try discriminate; lia. Qed.
+
+Example C08_model_answer_shape_nonvacuous :
+  vac_P <> [] /\
+  proper_form (List.length vac_P) (c_shape vac_call) = Some (2, true) /\
+  List.length (c_data vac_call) = 2 * List.length vac_P /\
+  eval_call ex_model vac_P vac_call = c_impl vac_call /\
+  (* a single point given as a vector: no axis *)
+  proper_form (List.length vac_P) [2] = Some (1, false) /\
+  eval_call ex_model vac_P (ex_call [2] [72; 71]%Z None) = Some ([], [ex_old]).
+Proof. vm_compute. repeat split; discriminate. Qed.
+
+Example C08_ok_call_sound_nonvacuous :
+  proper_form (List.length vac_P) (c_shape vac_call) = Some (2, true) /\
+  List.length (c_data vac_call) = 2 * List.length vac_P /\
+  ok_call ex_model vac_P vac_call = true.
+Proof. vm_compute. repeat split. Qed.
+
+Definition vac_epoch1 : epoch :=
+  {| e_model := ex_model; e_params := vac_P;
+     e_calls := [ex_call [2] [72; 71]%Z (Some ([], [ex_old])); vac_call] |}.
+Definition vac_epoch2 : epoch :=
+  {| e_model := ex_model_edited; e_params := vac_P; e_calls := [ex_call [2] [72; 71]%Z (Some ([], [ex_new]))] |}.
+
+Example C08_history_order_immaterial_nonvacuous :
+  Permutation [vac_epoch1; vac_epoch2] [vac_epoch2; vac_epoch1] /\
+  Permutation (e_calls vac_epoch1) (rev (e_calls vac_epoch1)) /\
+  agree_t (History [vac_epoch2; vac_epoch1]) = true /\
+  agree_epoch {| e_model := ex_model; e_params := vac_P; e_calls := rev (e_calls vac_epoch1) |} = true.
+Proof.
+  split; [apply perm_swap|]. split; [apply Permutation_rev|]. vm_compute. split; reflexivity.
+Qed.
+
+(* composition with C03: a point with an extra column overriding the constant _c2 *)
+Definition vac_hier_x : list (name * value) :=
+  [("p1"%string, VConst 71); ("_c2"%string, VConst 9); ("p0"%string, VConst 70)].
+Definition vac_hier_t : value :=
+  VApp (OpUser "mul"%string)
+       [VApp (OpUser "pdf:dist_p1"%string) [VConst 71; VConst 70; VConst 9] [];
+        VApp (OpUser "pdf:dist_p0"%string) [VConst 70; VConst 0; VConst 1] []] [].
+
+Example C08_evaluate_is_joint_spec_gen_nonvacuous :
+  wfsrc ex_hier /\ wf_request ex_hier ex_hier_P = true /\ NoDup (map fst vac_hier_x) /\
+  (forall k, In k (map fst vac_hier_x) -> has k (s_nodes ex_hier) = true) /\
+  (forall p, In p ex_hier_P -> In p (map fst vac_hier_x)) /\
+  evaluate ex_hier ex_hier_P false vac_hier_x = Ok vac_hier_t /\
+  map fst vac_hier_x <> ex_hier_P.
+Proof.
+  split; [apply wfsrc_b_sound; vm_compute; reflexivity|].
+  split; [vm_compute; reflexivity|].
+  split; [vac_nodup|].
+  split; [intros k H; vac_cases H; vm_compute; reflexivity|].
+  split; [intros p H; vac_cases H; vm_compute; intuition|].
+  split; [vm_compute; reflexivity|discriminate].
+Qed.
+
+Example C08_evaluate_is_joint_spec_gen_instance :
+  joint_spec ex_hier ex_hier_P false vac_hier_x = Some vac_hier_t.
+Proof.
+  destruct C08_evaluate_is_joint_spec_gen_nonvacuous as (H1 & H2 & H3 & H4 & H5 & H6 & _).
+  exact (C08_evaluate_is_joint_spec_gen _ _ _ _ _ H1 H2 H3 H4 H5 H6).
+Qed.
+
+Example C08_joint_spec_factors_defined_nonvacuous :
+  wf_request ex_hier ex_hier_P = true /\ (forall p, In p ex_hier_P -> In p (map fst vac_hier_x)) /\
+  Prior.all_some (map (factor ex_hier false vac_hier_x) ex_hier_P)
+  = Some [VApp (OpUser "pdf:dist_p1"%string) [VConst 71; VConst 70; VConst 9] [];
+          VApp (OpUser "pdf:dist_p0"%string) [VConst 70; VConst 0; VConst 1] []].
+Proof.
+  split; [vm_compute; reflexivity|].
+  split; [intros p H; vac_cases H; vm_compute; intuition|].
+  vm_compute. reflexivity.
+Qed.
+
+(* gradient_logpdf *)
+Definition vac_lp : logdens := table_lookup ex_lp.
+Definition vac_lp' : logdens :=
+  table_lookup [([0.25%float], (-1)%float); ([0.5%float], (-0.5)%float); ([0.75%float], (-1.5)%float);
+                ([1%float], neg_infinity); ([1.25%float], 3%float)].
+Definition vac_grows : list fpoint := [[0.5%float]; [1%float]].
+Definition vac_gs : list (list float) := [[(-1)%float]; [0%float]].
+
+Example C08_gradient_matrix_rows_nonvacuous :
+  0 < 1 /\ Forall (fun r : fpoint => List.length r = 1) vac_grows /\
+  expand_h 1 [0.25%float] = Some [0.25%float] /\
+  all_some (map (grad_point vac_lp [0.25%float]) vac_grows) = Some vac_gs.
+Proof. split; [lia|]. split; [repeat constructor|]. vm_compute. split; reflexivity. Qed.
+
+(** the two log densities differ at 1 and 1.25, outside the stencil {0.25, 0.5, 0.75} of the point 0.5 *)
+Example C08_gradient_row_local_nonvacuous :
+  (forall p, In p (stencil_points [0.5%float] [0.25%float]) -> vac_lp p = vac_lp' p) /\
+  option_map is_neginf (vac_lp [1%float]) = Some false /\ option_map is_neginf (vac_lp' [1%float]) = Some true /\
+  grad_point vac_lp [0.25%float] [0.5%float] = Some [(-1)%float] /\
+  grad_point vac_lp' [0.25%float] [0.5%float] = Some [(-1)%float].
+Proof.
+  split.
+  - intros p H. vm_compute in H. repeat (destruct H as [H|H]; [subst p; vm_compute; reflexivity|]). contradiction.
+  - vm_compute. repeat split.
+Qed.
+
+Example C08_gradient_row_alone_nonvacuous :
+  0 < 1 /\ Forall (fun r : fpoint => List.length r = 1) vac_grows /\
+  expand_h 1 [0.25%float] = Some [0.25%float] /\
+  nth_error vac_grows 1 = Some [1%float] /\
+  grad_call vac_lp 1 (ex_gcall [List.length vac_grows; 1] (List.concat vac_grows) None)
+  = Some ([List.length vac_grows; 1], List.concat vac_gs) /\
+  all_some (map (grad_point vac_lp [0.25%float]) vac_grows) = Some vac_gs /\
+  grad_call vac_lp 1 (ex_gcall [1; 1] [1%float] None) = Some ([1; 1], [0%float]).
+Proof. split; [lia|]. split; [repeat constructor|]. vm_compute. repeat split. Qed.
+
+(** two parameters, the default stepsize, a constant log density: the clause 1 < dim; one parameter: the clause dim = 1 *)
+Example C08_gradient_single_point_forms_nonvacuous :
+  0 < 2 /\ List.length [0.5; 1]%float = 2 /\ 1 < 2 /\
+  expand_h 2 [default_step] = Some [default_step; default_step] /\
+  grad_point (fun _ => Some (-1)%float) [default_step; default_step] [0.5; 1]%float = Some [0; 0]%float /\
+  0 < 1 /\ List.length [0.5%float] = 1 /\ expand_h 1 [0.25%float] = Some [0.25%float] /\
+  grad_point vac_lp [0.25%float] [0.5%float] = Some [(-1)%float].
+Proof. vm_compute. repeat split; lia. Qed.
+
+Definition vac_gcall : gcall := ex_gcall [2; 1] [0.5; 1]%float (Some ([2; 1], [-1; 0]%float)).
+
+Example C08_gradient_answer_shape_nonvacuous :
+  0 < 1 /\ proper_form 1 (g_shape vac_gcall) = Some (2, true) /\
+  List.length (g_data vac_gcall) = 2 * 1 /\
+  grad_call vac_lp 1 vac_gcall = Some ([2; 1], [-1; 0]%float) /\
+  (* a single point given as a scalar: no points axis *)
+  proper_form 1 [] = Some (1, false) /\
+  grad_call vac_lp 1 (ex_gcall [] [0.5%float] None) = Some ([1], [(-1)%float]).
+Proof. vm_compute. repeat split; lia. Qed.
+
+Example C08_gradient_ok_sound_nonvacuous :
+  proper_form 1 (g_shape vac_gcall) = Some (2, true) /\
+  List.length (g_data vac_gcall) = 2 * 1 /\
+  expand_h 1 (step_of vac_gcall) = Some [0.25%float] /\
+  ok_gcall vac_lp 1 vac_gcall = true.
+Proof. vm_compute. repeat split. Qed.
+
+Example C08_gradient_row_ok_zero_nonvacuous :
+  stencil_values vac_lp [0.25%float] [1%float] = Some ([(-1.5)%float], [(-2)%float], [neg_infinity]) /\
+  existsb is_neginf ([(-1.5)%float] ++ [(-2)%float] ++ [neg_infinity]) = true /\
+  row_ok vac_lp [0.25%float] [1%float] [0%float] [] = true.
+Proof. vm_compute. repeat split. Qed.
+
+Example C08_gradient_row_ok_finite_nonvacuous :
+  stencil_values vac_lp [0.25%float] [0.5%float] = Some ([(-1)%float], [(-0.5)%float], [(-1.5)%float]) /\
+  existsb is_neginf ([(-1)%float] ++ [(-0.5)%float] ++ [(-1.5)%float]) = false /\
+  forallb is_finite ([(-1)%float] ++ [(-0.5)%float] ++ [(-1.5)%float]) = true /\
+  row_ok vac_lp [0.25%float] [0.5%float] [(-1)%float] [Some (-1)%float] = true.
+Proof. vm_compute. repeat split. Qed.
